@@ -186,11 +186,9 @@ where
                     } else {
                         "panic".to_string()
                     };
-                    acc.inconclusive.push(format!(
-                        "shard {sh} history {} aborted by harness panic: {msg} @ {}",
-                        acc.history,
-                        crate::trap::last_panic_location()
-                    ));
+                    let msg: String = msg.chars().take(400).collect();
+                    let loc: String = crate::trap::last_panic_location().chars().take(200).collect();
+                    acc.inconclusive.push(format!("shard {sh} history {} aborted by harness panic: {msg} @ {loc}", acc.history));
                 }
                 results.lock().unwrap().push(acc);
             });
